@@ -54,6 +54,20 @@ def _gen_params(rng, method, like=None):
     for i, n in enumerate(base):
         ann = rng.choice(pysrc.ANNS) if rng.random() < 0.6 else None
         params.append([n, ann, i >= len(base) - n_def])
+    if rng.random() < 0.15:
+        # typeshed-style signatures: positional-only (`/`), keyword-only (`*`), *args / **kwargs - drawn independently
+        # for the runtime and the stub side, so the same name may have different kinds on the two sides
+        used = set()
+        for prm in params:
+            if prm[0] == "self":
+                continue
+            k = rng.choice([None, None, "po", "kw", "var", "varkw"])
+            if k in ("var", "varkw"):
+                if k in used:
+                    k = None
+                used.add(k)
+            if k:
+                prm.append(k)
     return params
 
 
@@ -322,7 +336,7 @@ def _merge_doc(rt_doc, st_doc):
 
 
 def _sig(params, ret):
-    return {"params": [[p[0], p[1]] for p in params], "returns": ret}
+    return {"params": [[p[0], p[1]] for p in pysrc.param_order(params)], "returns": ret}
 
 
 def _as_model(m):
@@ -357,7 +371,7 @@ def _merge_sig(rt_params, rt_ret, st_params, st_ret):
     for p in st_params:
         st_by_name.setdefault(p[0], p)
     params = []
-    for p in rt_params:
+    for p in pysrc.param_order(rt_params):
         if p[0] in st_by_name:
             s_ann = st_by_name[p[0]][1]
             # "takes annotations from the stubs": when the stubs give none, either reading is accepted
